@@ -1,4 +1,6 @@
 import MxModel.Proofs.ExecEdits
+import MxModel.Proofs.ExecCertOps
+import MxModel.Proofs.ExecObj
 import MxModel.Proofs.ExprRanked
 import MxModel.Exec.Expr
 /-!
@@ -230,5 +232,273 @@ example : (run gEnv {} gOps).ge =
 
 example (a : GNode) : ¬ Path (run gEnv {} gOps).ge a a :=
   graph_acyclic gEnv idLt idLt_strict gEnv_ranked gOps a
+
+/-! ## Histories that also edit the definitions
+
+The value-layer language above keeps the definitions fixed.  Here an operation may also change
+them: a reference is set (created or changed) or deleted, a cells gets another formula, the
+`is_cached` flag of a cells is switched – in either direction – each with the clearing modelx
+performs for it (`St.setRef`, `St.delRef`, `St.setFormula` = `clear_obj`; the setter of
+`is_cached` returns at once when the flag already has the value).  The only hypothesis is that
+the definitions stay terminating (`Ranked`) – formulas may handle failures, cells may be
+uncached, the depth limit may be hit. -/
+
+inductive EOp
+  | eval (n : Node)
+  | set (n : Node) (v : Val)
+  | clearAt (n : Node)
+  | clear (c : CellId)
+  | clearAll (c : CellId)
+  | setRef (r : RefId) (v : Val)
+  | delRef (r : RefId)
+  | setFormula (c : CellId) (f : Key → Prog)
+  | setCached (c : CellId) (b : Bool)
+
+def withRef (env : Env) (r : RefId) (x : Option Val) : Env :=
+  { env with refs := fun r' => if r' = r then x else env.refs r' }
+
+def withFormula (env : Env) (c : CellId) (f : Key → Prog) : Env :=
+  { env with formula := fun n => if n.1 = c then f n.2 else env.formula n }
+
+def withCached (env : Env) (c : CellId) (b : Bool) : Env :=
+  { env with cached := fun c' => if c' = c then b else env.cached c' }
+
+/-- one operation on the definitions and the mechanism state, in modelx's order: the clearing
+happens while the old definitions are in force, then the definition changes -/
+def estep : Env × St → EOp → Env × St
+  | (env, s), .eval n => (env, (evalTop env n s).2)
+  | (env, s), .set n v => (env, if env.cached n.1 then (s.setValue env n v).1 else s)
+  | (env, s), .clearAt n => (env, s.clearValueAt n true)
+  | (env, s), .clear c => (env, s.clearAllValues c false)
+  | (env, s), .clearAll c => (env, s.clearAllValues c true)
+  | (env, s), .setRef r v => (withRef env r (some v), s.setRef env r)
+  | (env, s), .delRef r => if (env.refs r).isSome then (withRef env r none, s.delRef env r) else (env, s)
+  | (env, s), .setFormula c f => (withFormula env c f, s.setFormula c)
+  | (env, s), .setCached c b => if env.cached c = b then (env, s) else (withCached env c b, s.setFormula c)
+
+def erun (st : Env × St) (ops : List EOp) : Env × St := ops.foldl estep st
+
+/-- the definitions stay terminating after every operation (automatic for everything except
+formula edits: `ranked_withRef`, `ranked_withCached`) -/
+def StaysRanked (lt : Node → Node → Prop) : Env × St → List EOp → Prop
+  | _, [] => True
+  | st, op :: ops => Ranked (estep st op).1 lt ∧ StaysRanked lt (estep st op) ops
+
+theorem ranked_withRef {env : Env} {lt : Node → Node → Prop} (h : Ranked env lt) (r : RefId)
+    (x : Option Val) : Ranked (withRef env r x) lt := h
+
+theorem ranked_withCached {env : Env} {lt : Node → Node → Prop} (h : Ranked env lt) (c : CellId)
+    (b : Bool) : Ranked (withCached env c b) lt := h
+
+theorem estep_inv (lt : Node → Node → Prop) (ho : StrictOrder lt) (st : Env × St) (op : EOp)
+    (hr : Ranked st.1 lt) (g : GI st.1 lt st.2) (hi : Idle st.2) :
+    GI (estep st op).1 lt (estep st op).2 ∧ Idle (estep st op).2 := by
+  obtain ⟨env, s⟩ := st
+  have clrIdle : ∀ {s' : St} {R : List GNode} {D : RefId × Node → Prop}, Clr s R D s' → Idle s' :=
+    fun hc => ⟨hc.stack.trans hi.1, hc.idx.trans hi.2⟩
+  cases op with
+  | eval n => exact step_inv env lt ho hr s (.eval n) g hi
+  | set n v => exact step_inv env lt ho hr s (.set n v) g hi
+  | clearAt n => exact step_inv env lt ho hr s (.clearAt n) g hi
+  | clear c => exact step_inv env lt ho hr s (.clear c) g hi
+  | clearAll c => exact step_inv env lt ho hr s (.clearAll c) g hi
+  | setRef r v =>
+    obtain ⟨R, D, hc, _, _⟩ := clr_setRef env s g.edgeOK r
+    have hed : RefEdit env (withRef env r (some v)) r := ⟨rfl, rfl, rfl, fun r' h => by simp [withRef, h], rfl⟩
+    exact ⟨refEdit_gi g hi.1 hed hc, clrIdle hc⟩
+  | delRef r =>
+    simp only [estep]
+    split
+    · obtain ⟨R, hc, _⟩ := clr_delRef env s g.edgeOK r
+      have hed : RefEdit env (withRef env r none) r := ⟨rfl, rfl, rfl, fun r' h => by simp [withRef, h], rfl⟩
+      exact ⟨refEdit_gi g hi.1 hed hc, clrIdle hc⟩
+    · exact ⟨g, hi⟩
+  | setFormula c f =>
+    simp only [estep, St.setFormula]
+    obtain ⟨R, hc, hel, _⟩ := clr_clearObj s (fun _ => False) g.edgeOK c
+    refine ⟨g.of_clr hi.1 hc ?_, clrIdle hc⟩
+    intro m _; rfl
+  | setCached c b =>
+    simp only [estep]
+    split
+    · exact ⟨g, hi⟩
+    · simp only [St.setFormula]
+      obtain ⟨R, hc, hel, _⟩ := clr_clearObj s (fun _ => False) g.edgeOK c
+      refine ⟨g.of_clr hi.1 hc ?_, clrIdle hc⟩
+      intro m hm
+      obtain ⟨h1, h2⟩ := (hc.mem_gn _).mp hm
+      have : m.1 ≠ c := fun h => h2 (hel m h h1)
+      simp [withCached, this]
+
+/-- **Every reachable state satisfies the graph invariant – also across edits of the
+definitions**: after any finite history of evaluations, cache hits, failed evaluations, value
+edits, reference edits (create, change, delete), formula edits and switches of `is_cached` in
+either direction, from the empty model. -/
+theorem reachable_inv_edits (lt : Node → Node → Prop) (ho : StrictOrder lt) (env0 : Env)
+    (hr0 : Ranked env0 lt) (ops : List EOp) (hadm : StaysRanked lt (env0, {}) ops) :
+    GI (erun (env0, {}) ops).1 lt (erun (env0, {}) ops).2 ∧ Idle (erun (env0, {}) ops).2 := by
+  suffices ∀ (ops : List EOp) (st : Env × St), Ranked st.1 lt → GI st.1 lt st.2 → Idle st.2 →
+      StaysRanked lt st ops → GI (erun st ops).1 lt (erun st ops).2 ∧ Idle (erun st ops).2 from
+    this ops (env0, {}) hr0 (empty_GI env0 lt) ⟨rfl, rfl⟩ hadm
+  intro ops
+  induction ops with
+  | nil => intro st _ g hi _; exact ⟨g, hi⟩
+  | cons op rest ih =>
+    intro st hr g hi hadm
+    obtain ⟨g', hi'⟩ := estep_inv lt ho st op hr g hi
+    exact ih (estep st op) hadm.1 g' hi' hadm.2
+
+/-- **Graph element nodes = held elements, after any history with edits** (in particular right
+after a switch of `is_cached`: nothing of the cells' old mode is left as an element node, and
+every element node belongs to a cells that is cached NOW). -/
+theorem graph_nodes_eq_held_edits (lt : Node → Node → Prop) (ho : StrictOrder lt) (env0 : Env)
+    (hr0 : Ranked env0 lt) (ops : List EOp) (hadm : StaysRanked lt (env0, {}) ops) (m : Node) :
+    (GNode.elem m ∈ (erun (env0, {}) ops).2.gn ↔ (lookup (erun (env0, {}) ops).2.data m).isSome) ∧
+    (GNode.elem m ∈ (erun (env0, {}) ops).2.gn → (erun (env0, {}) ops).1.cached m.1 = true) := by
+  obtain ⟨g, hi⟩ := reachable_inv_edits lt ho env0 hr0 ops hadm
+  refine ⟨⟨fun h => ?_, fun h => (g.heldNodes m h).1⟩, g.elemCached m⟩
+  rcases g.nodesHeld m h with h' | h'
+  · exact h'
+  · rw [hi.1] at h'; cases h'
+
+/-- **The graph stays acyclic across edits.** -/
+theorem graph_acyclic_edits (lt : Node → Node → Prop) (ho : StrictOrder lt) (env0 : Env)
+    (hr0 : Ranked env0 lt) (ops : List EOp) (hadm : StaysRanked lt (env0, {}) ops) (a : GNode) :
+    ¬ Path (erun (env0, {}) ops).2.ge a a := by
+  intro p
+  obtain ⟨u, hu, h⟩ := path_ordered ho (reachable_inv_edits lt ho env0 hr0 ops hadm).1 p
+  subst hu
+  rcases h with ⟨m, hm, hlt⟩ | ⟨c, hc⟩
+  · cases hm; exact ho.irrefl _ hlt
+  · cases hc
+
+/-! ### object nodes
+
+The key-less node `(cells,)` stands for an uncached cells.  It is legitimate only while the cells
+IS uncached: switching the flag on must remove it together with everything calculated through
+the cells (`clear_obj`).  No hypothesis on the programs beyond `Ranked` (which gives `GI`, needed
+for the closure facts of the clearing routines). -/
+
+theorem estep_obj (lt : Node → Node → Prop) (st : Env × St) (op : EOp)
+    (g : GI st.1 lt st.2) (hi : Idle st.2) (hobj : ObjOK st.1 st.2) :
+    ObjOK (estep st op).1 (estep st op).2 := by
+  obtain ⟨env, s⟩ := st
+  have clrSub : ∀ {s' : St} {R : List GNode} {D : RefId × Node → Prop}, Clr s R D s' → ObjGrow env s s' :=
+    fun hc => ObjGrow.of_sub (fun x hx => ((hc.mem_gn x).mp hx).1)
+  cases op with
+  | eval n => exact hobj.grow (evalTop_obj n s)
+  | set n v =>
+    simp only [estep]
+    split
+    · obtain ⟨R, hc, _⟩ := clr_clearValueAt s (fun _ => False) g.edgeOK n true
+      refine hobj.grow ?_
+      unfold St.setValue
+      split
+      · exact ObjGrow.refl s
+      · simp only []
+        refine (clrSub hc).trans ?_
+        have h1 : ObjGrow env (s.clearValueAt n true)
+            { s.clearValueAt n true with data := insert (s.clearValueAt n true).data n v } := ObjGrow.of_gn rfl
+        refine h1.trans ((objGrow_addNode_elem _ n).trans (ObjGrow.of_gn rfl))
+    · exact hobj
+  | clearAt n =>
+    obtain ⟨R, hc, _⟩ := clr_clearValueAt s (fun _ => False) g.edgeOK n true
+    exact hobj.grow (clrSub hc)
+  | clear c =>
+    obtain ⟨R, hc, _⟩ := clr_clearAllValues s (fun _ => False) g.edgeOK c false
+    exact hobj.grow (clrSub hc)
+  | clearAll c =>
+    obtain ⟨R, hc, _⟩ := clr_clearAllValues s (fun _ => False) g.edgeOK c true
+    exact hobj.grow (clrSub hc)
+  | setRef r v =>
+    obtain ⟨R, D, hc, _, _⟩ := clr_setRef env s g.edgeOK r
+    exact hobj.grow (clrSub hc)
+  | delRef r =>
+    simp only [estep]
+    split
+    · obtain ⟨R, hc, _⟩ := clr_delRef env s g.edgeOK r
+      exact hobj.grow (clrSub hc)
+    · exact hobj
+  | setFormula c f =>
+    simp only [estep, St.setFormula]
+    obtain ⟨R, hc, _, _⟩ := clr_clearObj s (fun _ => False) g.edgeOK c
+    exact hobj.grow (clrSub hc)
+  | setCached c b =>
+    simp only [estep]
+    split
+    · exact hobj
+    · simp only [St.setFormula]
+      obtain ⟨R, hc, _, hgone⟩ := clr_clearObj s (fun _ => False) g.edgeOK c
+      intro c' hc'
+      obtain ⟨h1, h2⟩ := (hc.mem_gn _).mp hc'
+      have hne : c' ≠ c := fun h => h2 (h ▸ hgone (h ▸ h1))
+      simp only [withCached, hne, if_false]
+      exact hobj c' h1
+
+/-- **An object node is in the graph only for a cells that is uncached NOW** – in every state
+reachable by evaluations, failed evaluations, value edits, reference edits, formula edits and
+switches of `is_cached` in either direction.  With `graph_nodes_eq_held_edits`: the nodes of the
+graph are exactly the held elements (all of cached cells) and object nodes of uncached cells. -/
+theorem object_nodes_only_for_uncached (lt : Node → Node → Prop) (ho : StrictOrder lt) (env0 : Env)
+    (hr0 : Ranked env0 lt) (ops : List EOp) (hadm : StaysRanked lt (env0, {}) ops) (c : CellId)
+    (h : GNode.obj c ∈ (erun (env0, {}) ops).2.gn) : (erun (env0, {}) ops).1.cached c = false := by
+  suffices ∀ (ops : List EOp) (st : Env × St), Ranked st.1 lt → GI st.1 lt st.2 → Idle st.2 →
+      ObjOK st.1 st.2 → StaysRanked lt st ops → ObjOK (erun st ops).1 (erun st ops).2 from
+    this ops (env0, {}) hr0 (empty_GI env0 lt) ⟨rfl, rfl⟩ (by intro c hc; simp at hc) hadm c h
+  intro ops
+  induction ops with
+  | nil => intro st _ _ _ hobj _; exact hobj
+  | cons op rest ih =>
+    intro st hr g hi hobj hadm
+    obtain ⟨g', hi'⟩ := estep_inv lt ho st op hr g hi
+    exact ih (estep st op) hadm.1 g' hi' (estep_obj lt st op g hi hobj) hadm.2
+
+/-! Non-vacuity (the history of the seeded change C08-mutD): `top` (c2) is calculated through the
+uncached `mid` (c1) over `base` (c0); then caching is switched ON for `mid`.  The object node of
+`mid`, `top(1)` and their edges are gone; after the next query the graph is that of a model that
+had `mid` cached from the start; assigning `mid(1)` invalidates `top(1)`. -/
+def hCells : CellId → Option Expr
+  | 0 => some (.mul (.param 0) (.lit 10))
+  | 1 => some (.add (.call 0 [.param 0]) (.lit 1))
+  | 2 => some (.mul (.call 1 [.param 0]) (.lit 2))
+  | _ => none
+
+def hAr : CellId → Option Nat
+  | 0 => some 1 | 1 => some 1 | 2 => some 1 | _ => none
+
+def hEnv : Env where
+  formula := fun n => match hCells n.1 with
+    | some e => formulaOf hAr e n.2
+    | none => .raise (.user kName)
+  cached := fun c => c != 1
+  allowNone := fun _ => false
+  refs := fun _ => none
+  maxdepth := 20
+
+theorem hEnv_ranked : Ranked hEnv idLt :=
+  ranked_of_table hCells hAr hEnv (fun _ => rfl) (by
+    intro i e h
+    match i, h with
+    | 0, h => cases h; rfl
+    | 1, h => cases h; rfl
+    | 2, h => cases h; rfl)
+
+def k1 : Key := [.int 1]
+
+example : (erun (hEnv, {}) [.eval (2, k1)]).2.ge =
+    [(.elem (0, k1), .elem (2, k1)), (.obj 1, .elem (2, k1))] := by decide
+
+example : (erun (hEnv, {}) [.eval (2, k1), .setCached 1 true]).2.gn = [.elem (0, k1)] ∧
+    (erun (hEnv, {}) [.eval (2, k1), .setCached 1 true]).2.ge = [] := by decide
+
+example : (erun (hEnv, {}) [.eval (2, k1), .setCached 1 true, .eval (2, k1)]).2.ge =
+    [(.elem (0, k1), .elem (1, k1)), (.elem (1, k1), .elem (2, k1))] := by decide
+
+example : (evalTop (withCached hEnv 1 true) (2, k1)
+    (erun (hEnv, {}) [.eval (2, k1), .setCached 1 true, .eval (2, k1), .set (1, k1) (.int 100)]).2).1
+    = .ok (.int 200) := by decide
+
+example : StaysRanked idLt (hEnv, {}) [.eval (2, k1), .setCached 1 true, .eval (2, k1)] :=
+  ⟨hEnv_ranked, ranked_withCached hEnv_ranked 1 true, ranked_withCached hEnv_ranked 1 true, trivial⟩
 
 end MxModel.C08
